@@ -435,7 +435,7 @@ def i_MULLW(i, fmap):
 
 def i_MULWF(i, fmap):
     fmap[pc] = fmap(pc) + i.length
-    src = i.imm
+    src = i.src
     res = fmap(wreg ** src)
     fmap[prod] = res
 
